@@ -49,8 +49,20 @@ var knownRules = func() map[string]bool {
 	for _, r := range c18Standard {
 		m[r.Name] = true
 	}
+	for _, v := range c18Variants {
+		m[v.variant.Name] = true
+	}
 	return m
 }()
+
+// c20Awkward: documents whose errors sit on the line on which a multi-line, non-ASCII
+// block string ends (positions there are computed from both byte and character cursors).
+var c20Awkward = []string{
+	"{ search(q: \"\"\"\n日本語の説明文です\n\"\"\") { nope } }",
+	"{ search(q: \"\"\"\r\né😀é\r\n  é\"\"\", n: \"x\") { nope } nope2 }",
+	"query Q($v: Nope = \"\"\"\nääääääääää\n\"\"\" @nope) { id @nope(a: \"\"\"\nöö\nöööööö\"\"\") zz }",
+	"{ id # é😀 comment\n nope(x: \"é\\u00e9\") } # ééé\n",
+}
 
 type errMonitor struct {
 	c         *explore.Ctx
@@ -267,7 +279,16 @@ func c20Run(m *errMonitor, in c20Input) {
 				err = perr
 				return
 			}
-			if errs := validator.Validate(kitSchema(in.Schema), q); len(errs) > 0 {
+			if in.Limit == 1 {
+				// the without-suggestions variants, explicitly
+				var rs []validator.Rule
+				for _, v := range c18Variants {
+					rs = append(rs, v.variant)
+				}
+				if errs := validator.Validate(kitSchema(in.Schema), q, rs...); len(errs) > 0 {
+					err = errs
+				}
+			} else if errs := validator.Validate(kitSchema(in.Schema), q); len(errs) > 0 {
 				err = errs
 			}
 		case "LoadQuery":
@@ -386,7 +407,18 @@ func runC20(c *explore.Ctx) {
 	if s != nil {
 		t0 := time.Now()
 		m := newMon(s)
+		if c.Shard == 0 {
+			for _, q := range c20Awkward {
+				s.States++
+				c20Run(m, c20Input{Entry: "Validate", Query: q, Names: []string{"query.graphql"}})
+				c20Run(m, c20Input{Entry: "LoadQuery", Query: q})
+				c20Run(m, c20Input{Entry: "ParseQuery", Sources: []string{q + " }"}, Names: []string{"named.graphql"}})
+				c20Run(m, c20Input{Entry: "ParseSchema", Sources: []string{"\"\"\"\n説明文説明文説明文\n\"\"\" type A { f: Int } } " + q}, Names: []string{"named.graphql"}})
+				c20Run(m, c20Input{Entry: "LoadSchema", Sources: []string{"type Query { a: Int }", "\"\"\"\n説明文説明文説明文\n\"\"\" type A { f: Missing }"}, Names: []string{"a.graphql", "b.graphql"}})
+			}
+		}
 		forEachProfileDoc(c, s, "", func(d kitDoc) {
+			c20Run(m, c20Input{Entry: "Validate", Query: d.Doc, Names: []string{"query.graphql"}, Schema: d.Schema, Limit: 1})
 			c20Run(m, c20Input{Entry: "Validate", Query: d.Doc, Names: []string{"query.graphql"}, Schema: d.Schema})
 			if s.States%8 == 0 {
 				c20Run(m, c20Input{Entry: "LoadQuery", Query: d.Doc, Schema: d.Schema})
